@@ -110,4 +110,9 @@ def main():
 
 
 if __name__ == '__main__':
-    sys.exit(main())
+    _rc = main()
+    # never wait for threads at interpreter exit: a changed library may have left non-daemon threads behind that
+    # never end (a prefetch worker blocked in `put`); the verdict has been printed and the evidence written
+    sys.stdout.flush()
+    sys.stderr.flush()
+    os._exit(_rc if isinstance(_rc, int) else 0)
